@@ -3,6 +3,7 @@
 //! (DisplayContext{precisions}.as_display(&txn) + '\n'), then okane_core::parse::parse_ledger on
 //! the printed text.  Statement records carry adversarial text in every field that reaches the
 //! ledger (payee, code, note, category, commodity).
+use crate::caldate;
 use crate::camtgen::{self, xml_escape, yaml_str};
 use crate::coq::{self, Shards, Stats};
 use crate::imptree::{self, ImportRun, TxObs};
@@ -32,6 +33,10 @@ pub struct Run {
     /// trailing junk (the cell texts); empty for an ordinary statement
     #[serde(default)]
     pub junk: Vec<String>,
+    /// the generator wrote a statement the importer is meant to read (a generated CSV statement
+    /// without a junk cell): a refusal is then a case of its own
+    #[serde(default)]
+    pub must_import: bool,
 }
 
 /// (negative, mantissa, scale)
@@ -51,6 +56,13 @@ pub struct Intent {
     /// stated secondary amount of a converted record (its magnitude is some posting's amount)
     #[serde(default)]
     pub secondary: Option<Num>,
+    /// the calendar date the record states (year, month, day)
+    #[serde(default)]
+    pub date: Option<(i32, u32, u32)>,
+    /// the payee text the record states, as one line (line breaks are spaces, outer white space
+    /// dropped: single_entry::one_line); only where no rewrite rule captures a payee
+    #[serde(default)]
+    pub payee: Option<String>,
 }
 
 // ---------- adversarial text ----------
@@ -211,6 +223,8 @@ fn gen_camt(r: &mut Rng, st: &mut Stats) -> Run {
         writeln!(x, "      <Bal><Tp><CdOrPrtry><Cd>CLBD</Cd></CdOrPrtry></Tp><Amt Ccy=\"{}\">{}</Amt><CdtDbtInd>CRDT</CdtDbtInd></Bal>", xml_escape(&ccy), dec_text(r, false)).unwrap();
     }
     let mut records = 0;
+    // the entries of a statement lie within a week that reaches or crosses a calendar boundary
+    let week = caldate::Window::new(r, caldate::YEAR_LO, caldate::YEAR_HI, 6);
     for k in 0..n {
         let (payee, ptag) = adv_text(r);
         let (code, cotag) = code_text(r);
@@ -218,9 +232,20 @@ fn gen_camt(r: &mut Rng, st: &mut Stats) -> Run {
         st.count(&format!("text:code:{}", cotag));
         let credit = r.chance(2, 5);
         let amt = dec_text(r, false);
-        let day = 1 + r.below(27);
-        let vday = if r.chance(1, 3) { 1 + r.below(27) } else { day };
-        writeln!(x, "      <Ntry>\n        <Amt Ccy=\"{}\">{}</Amt>\n        <CdtDbtInd>{}</CdtDbtInd>\n        <BookgDt><Dt>2021-10-{:02}</Dt></BookgDt>\n        <ValDt><Dt>2021-10-{:02}</Dt></ValDt>\n        <BkTxCd/>", xml_escape(&ccy), amt, if credit { "CRDT" } else { "DBIT" }, day, vday).unwrap();
+        let day = week.pick(r);
+        let vday = if r.chance(1, 3) { week.pick(r) } else { day };
+        st.count(&format!("date:camt booking:{}", caldate::class_of(day)));
+        st.count(&format!("date:camt value:{}", caldate::class_of(vday)));
+        // xs:date, or now and then xs:dateTime with an offset: the local date of the text counts
+        let mut dt = |d: chrono::NaiveDate| {
+            if r.chance(1, 8) {
+                format!("<DtTm>{}T{}</DtTm>", d.format("%Y-%m-%d"), r.pick(&["10:15:00+02:00", "23:30:00+02:00", "00:10:00-05:00", "12:00:00Z", "00:00:00+14:00", "23:59:59-12:00"]))
+            } else {
+                format!("<Dt>{}</Dt>", d.format("%Y-%m-%d"))
+            }
+        };
+        let (bk, vl) = (dt(day), dt(vday));
+        writeln!(x, "      <Ntry>\n        <Amt Ccy=\"{}\">{}</Amt>\n        <CdtDbtInd>{}</CdtDbtInd>\n        <BookgDt>{}</BookgDt>\n        <ValDt>{}</ValDt>\n        <BkTxCd/>", xml_escape(&ccy), amt, if credit { "CRDT" } else { "DBIT" }, bk, vl).unwrap();
         let entry_charge = r.chance(1, 6);
         if entry_charge {
             writeln!(x, "        <Chrgs><Rcrd><Amt Ccy=\"{}\">{}</Amt><CdtDbtInd>DBIT</CdtDbtInd><ChrgInclInd>true</ChrgInclInd></Rcrd></Chrgs>", xml_escape(&ccy), dec_text(r, false)).unwrap();
@@ -270,7 +295,7 @@ fn gen_camt(r: &mut Rng, st: &mut Stats) -> Run {
     writeln!(y, "  - matcher:\n      payee: \"Okane\"\n    account: \"Assets:Wire:Money Bank\"\n    pending: true").unwrap();
     // the opening-balance transaction is a record of the statement as well
     let has_opening = x.contains("OPBD");
-    Run { importer: "camt".into(), path: "in.xml".into(), input: x, yaml: y, records: records + if has_opening { 1 } else { 0 }, intended: vec![], junk: vec![] }
+    Run { importer: "camt".into(), path: "in.xml".into(), input: x, yaml: y, records: records + if has_opening { 1 } else { 0 }, intended: vec![], junk: vec![], must_import: false }
 }
 
 // ---------- CSV ----------
@@ -300,14 +325,30 @@ fn comm_of(r: &mut Rng, base: &str, benign: bool) -> (String, &'static str) {
     }
 }
 
+const CSV_DATE_FORMATS: [&str; 7] = ["%Y-%m-%d", "%Y-%m-%d", "%Y/%m/%d", "%d.%m.%Y", "%m/%d/%Y", "%d.%m.%y", "%d %b %Y"];
+
 fn gen_csv(r: &mut Rng, st: &mut Stats) -> Run {
+    if r.chance(1, 3) {
+        return gen_csv_text_first(r, st);
+    }
     let n = 1 + r.below(4) as usize;
     let layout = r.below(3);
     let mut t = String::new();
     let mut y = String::new();
     let liability = r.chance(1, 2);
     writeln!(y, "path: in.csv\nencoding: UTF-8\naccount: {}\naccount_type: {}\noperator: \"Bank (fee)\"\ncommodity: CHF", yaml_str(*r.pick(&["Assets:Okane Bank", "Liabilities:Okane Card"])), if liability { "liability" } else { "asset" }).unwrap();
-    writeln!(y, "format:\n  date: \"%Y-%m-%d\"").unwrap();
+    let date_fmt = *r.pick(&CSV_DATE_FORMATS);
+    st.count(&format!("csv_date_format:{}", date_fmt));
+    writeln!(y, "format:\n  date: {}", yaml_str(date_fmt)).unwrap();
+    // a two-digit year means 1970..2069 to chrono
+    let (ylo, yhi) = if date_fmt.contains("%y") { (1970, 2069) } else { (caldate::YEAR_LO, caldate::YEAR_HI) };
+    let week = caldate::Window::new(r, ylo, yhi, 6);
+    let mut row_date = |r: &mut Rng, st: &mut Stats| -> (String, Option<(i32, u32, u32)>) {
+        use chrono::Datelike;
+        let d = week.pick(r);
+        st.count(&format!("date:csv:{}", caldate::class_of(d)));
+        (d.format(date_fmt).to_string(), Some((d.year(), d.month(), d.day())))
+    };
     let new_to_old = r.chance(1, 3);
     if new_to_old {
         writeln!(y, "  row_order: new_to_old").unwrap();
@@ -353,8 +394,9 @@ fn gen_csv(r: &mut Rng, st: &mut Stats) -> Run {
                 } else {
                     (String::new(), None)
                 };
-                intended.push(Intent { amount: if a_def { Some((a.0 != liability, a.1, a.2)) } else { None }, balance: ibal, charge: ifee, ..Default::default() });
-                writeln!(t, "2021-10-{:02},{},{},{},{},{},{},{}", 1 + r.below(27), csv_field(&payee), csv_field(&amount), csv_field(&bal), csv_field(&note), csv_field(*r.pick(&["food", "misc"])), csv_field(&ccy), csv_field(&fee)).unwrap();
+                let (dtext, idate) = row_date(r, st);
+                intended.push(Intent { amount: if a_def { Some((a.0 != liability, a.1, a.2)) } else { None }, balance: ibal, charge: ifee, date: idate, ..Default::default() });
+                writeln!(t, "{},{},{},{},{},{},{},{}", csv_field(&dtext), csv_field(&payee), csv_field(&amount), csv_field(&bal), csv_field(&note), csv_field(*r.pick(&["food", "misc"])), csv_field(&ccy), csv_field(&fee)).unwrap();
             }
             writeln!(y, "rewrite:\n  - matcher:\n      payee: \"^Debit (?P<code>[^ ]*) (?P<payee>.*)$\"\n  - matcher:\n      category: food\n    account: Expenses:Food").unwrap();
         }
@@ -394,8 +436,10 @@ fn gen_csv(r: &mut Rng, st: &mut Stats) -> Run {
                 } else {
                     (String::new(), String::new())
                 };
+                let (dtext, idate) = row_date(r, st);
+                it.date = idate;
                 intended.push(it);
-                writeln!(t, "2021-10-{:02},{},{},{},{},{},{}", 1 + r.below(27), csv_field(&format!("Debit {} {}", if junk_row.is_some() { *r.pick(&["1234", "77", "12"]) } else { *r.pick(&["1234", "A)B", "", "77", "Z-9", "8/8", "x;y", "12"]) }, payee)),
+                writeln!(t, "{},{},{},{},{},{},{}", csv_field(&dtext), csv_field(&format!("Debit {} {}", if junk_row.is_some() { *r.pick(&["1234", "77", "12"]) } else { *r.pick(&["1234", "A)B", "", "77", "Z-9", "8/8", "x;y", "12"]) }, payee)),
                     csv_field(if credit { &a } else { "" }), csv_field(if credit { "" } else { &a }),
                     csv_field(&samt), csv_field(&sc), csv_field(&rate)).unwrap();
             }
@@ -413,15 +457,189 @@ fn gen_csv(r: &mut Rng, st: &mut Stats) -> Run {
                 let (m, sc) = gen_num(r);
                 let a: Num = (r.chance(2, 5), m, sc);
                 let (at, a_def) = cell(r, st, a, junk_row == Some(k), &mut junk, "amount");
-                intended.push(Intent { amount: if a_def { Some((a.0 != liability, a.1, a.2)) } else { None }, ..Default::default() });
-                writeln!(t, "2021-10-{:02},{},{},{}", 1 + r.below(27), csv_field(&cat), csv_field(&note), csv_field(&at)).unwrap();
+                let (dtext, idate) = row_date(r, st);
+                intended.push(Intent { amount: if a_def { Some((a.0 != liability, a.1, a.2)) } else { None }, date: idate, ..Default::default() });
+                writeln!(t, "{},{},{},{}", csv_field(&dtext), csv_field(&cat), csv_field(&note), csv_field(&at)).unwrap();
             }
         }
     }
     if new_to_old {
         intended.reverse();
     }
-    Run { importer: "csv".into(), path: "in.csv".into(), input: t, yaml: y, records: n, intended, junk }
+    Run { importer: "csv".into(), path: "in.csv".into(), input: t, yaml: y, records: n, must_import: junk.is_empty(), intended, junk }
+}
+
+
+/// single_entry::one_line as the statement's reader would do it by hand: line breaks are spaces,
+/// outer white space (Unicode White_Space, as str::trim) is dropped
+fn one_line(s: &str) -> String {
+    s.replace(['\r', '\n'], " ").trim().to_string()
+}
+
+/// RFC 4180 writer: a cell is quoted only when it has to be (it holds the delimiter, a double
+/// quote or a line break) - or, now and then, although it need not be; a cell that merely
+/// *begins* with `#`, `'`, `;`, `=`, a space, a tab or U+FEFF is written bare
+fn rfc_field(r: &mut Rng, s: &str, delim: char) -> String {
+    if s.contains(delim) || s.contains('"') || s.contains('\n') || s.contains('\r') || r.chance(1, 6) {
+        format!("\"{}\"", s.replace('"', "\"\""))
+    } else {
+        s.to_string()
+    }
+}
+
+/// A free-text cell beginning with a character some CSV dialect (or spreadsheet) treats
+/// specially: comment marks, quotes, the other delimiters, formula triggers, white space, a byte
+/// order mark; or an empty cell.  (text, class)
+fn special_start_text(r: &mut Rng) -> (String, &'static str) {
+    let (rest, _) = if r.chance(1, 4) { adv_text(r) } else { (r.pick(&BENIGN).to_string(), "benign") };
+    let rest = if rest.is_empty() { "x".to_string() } else { rest };
+    let (lead, class): (&str, &'static str) = match r.below(20) {
+        0..=3 => (*r.pick(&["#", "# ", "#1 ", "##"]), "hash"),
+        4 => ("\"", "double_quote"),
+        5 => ("'", "apostrophe"),
+        6 => (";", "semicolon"),
+        7 => ("=", "equals"),
+        8 => (*r.pick(&["+", "-", "@"]), "formula_sign"),
+        9 => (" ", "space"),
+        10 => ("\t", "tab"),
+        11 => ("\u{feff}", "byte_order_mark"),
+        12 => (*r.pick(&["//", "%", "!", "*", "--", "|", ",", "\\"]), "other_mark"),
+        13 => return (String::new(), "empty"),
+        14 => return ((*r.pick(&["#", "\"", "'", ";", "=", " ", "\t", "\u{feff}", "\"\"", "# #"])).to_string(), "mark_only"),
+        _ => ("", "plain"),
+    };
+    (format!("{}{}", lead, rest), class)
+}
+
+/// CSV statements whose FIRST column is free text (payee or note) - the date sits in a later
+/// column - written under one of four delimiters by an RFC 4180 writer; text cells begin with
+/// characters CSV dialects treat specially.  The generator states for each record its date, payee
+/// and amount: the number and the content of the transactions read back are checked against it.
+fn gen_csv_text_first(r: &mut Rng, st: &mut Stats) -> Run {
+    use chrono::Datelike;
+    let n = 1 + r.below(5) as usize;
+    let liability = r.chance(1, 3);
+    let delim: char = *r.pick(&[',', ',', ';', '\t', '|']);
+    let date_fmt = *r.pick(&CSV_DATE_FORMATS);
+    st.count("csv_layout:text_first");
+    st.count(&format!("csv_date_format:{}", date_fmt));
+    st.count(&format!("csv_delimiter:{:?}", delim));
+    let (ylo, yhi) = if date_fmt.contains("%y") { (1970, 2069) } else { (caldate::YEAR_LO, caldate::YEAR_HI) };
+    let week = caldate::Window::new(r, ylo, yhi, 6);
+    // columns: 0 payee, 1 note, 2 date, 3 amount, 4 balance, 5 a column the configuration ignores
+    let first = if r.chance(2, 3) { 0usize } else { 1 };
+    let mut rest: Vec<usize> = vec![if first == 0 { 1 } else { 0 }, 2, 3];
+    if r.chance(1, 2) {
+        rest.push(4);
+    }
+    if r.chance(1, 3) {
+        rest.push(5);
+    }
+    r.shuffle(&mut rest);
+    let mut cols = vec![first];
+    cols.extend(rest);
+    // labels; the first one may itself begin with a special character
+    let first_label = match r.below(8) {
+        0 => format!("#{}", if first == 0 { "Payee" } else { "Text" }),
+        1 => "# of record".to_string(),
+        2 => (*r.pick(&["=Payee", "'Payee", ";Payee", " Payee", "\"Payee\""])).to_string(),
+        _ => (if first == 0 { "Payee" } else { "Text" }).to_string(),
+    };
+    if first_label != "Payee" && first_label != "Text" {
+        st.count("csv_first_label:special");
+    }
+    let label = |c: usize| -> String {
+        if c == first {
+            first_label.clone()
+        } else {
+            ["Payee", "Text", "Booked", "Amount", "Saldo", "Ref"][c].to_string()
+        }
+    };
+    let by_index = r.chance(1, 3);
+    let pos = |c: usize| -> String {
+        let i = cols.iter().position(|x| *x == c).unwrap();
+        if by_index {
+            format!("{}", i + 1)
+        } else {
+            yaml_str(&label(c))
+        }
+    };
+    let new_to_old = r.chance(1, 3);
+    let mut y = String::new();
+    writeln!(y, "path: in.csv\nencoding: UTF-8\naccount: {}\naccount_type: {}\noperator: \"Bank (fee)\"\ncommodity: CHF", yaml_str(*r.pick(&["Assets:Okane Bank", "Liabilities:Okane Card"])), if liability { "liability" } else { "asset" }).unwrap();
+    writeln!(y, "format:\n  date: {}", yaml_str(date_fmt)).unwrap();
+    if delim != ',' || r.chance(1, 2) {
+        writeln!(y, "  delimiter: {}", yaml_str(&delim.to_string())).unwrap();
+    }
+    if new_to_old {
+        writeln!(y, "  row_order: new_to_old").unwrap();
+    }
+    y.push_str(&precisions_yaml(r, &["CHF"]));
+    writeln!(y, "  fields:\n    payee: {}\n    note: {}\n    date: {}\n    amount: {}", pos(0), pos(1), pos(2), pos(3)).unwrap();
+    if cols.contains(&4) {
+        writeln!(y, "    balance: {}", pos(4)).unwrap();
+    }
+    // rules that give an account but never a payee: the payee booked is the statement's text
+    writeln!(y, "rewrite:\n  - matcher:\n      payee: \"(?i)migros|coop\"\n    account: Expenses:Grocery\n  - matcher:\n      payee: \"Okane\"\n    account: Assets:Wire\n    pending: true").unwrap();
+    let ds = delim.to_string();
+    let mut t = String::new();
+    // one export in ten begins with a byte order mark
+    if r.chance(1, 10) {
+        st.count("csv_file:byte_order_mark");
+        t.push('\u{feff}');
+    }
+    let head: Vec<String> = cols.iter().map(|c| rfc_field(r, &label(*c), delim)).collect();
+    t.push_str(&head.join(&ds));
+    t.push('\n');
+    let mut intended: Vec<Intent> = Vec::new();
+    for _ in 0..n {
+        let (payee, pclass) = special_start_text(r);
+        let (note, nclass) = special_start_text(r);
+        st.count(&format!("csv_first_cell:{}", if first == 0 { pclass } else { nclass }));
+        st.count(&format!("text:payee:start_{}", pclass));
+        st.count(&format!("text:note:start_{}", nclass));
+        let d = week.pick(r);
+        st.count(&format!("date:csv:{}", caldate::class_of(d)));
+        let (m, sc) = gen_num(r);
+        let a: Num = (r.chance(2, 5), m, sc);
+        let amount = money_cell(r, st, a);
+        let bal = if r.chance(2, 3) {
+            let (m, sc) = gen_num(r);
+            let b: Num = (r.chance(1, 4), m, sc);
+            (money_cell(r, st, b), Some(b))
+        } else {
+            (String::new(), None)
+        };
+        let junk_col = (*r.pick(&["", "#ref", "r 1", "=1+1"])).to_string();
+        let cells: Vec<String> = cols
+            .iter()
+            .map(|c| match c {
+                0 => payee.clone(),
+                1 => note.clone(),
+                2 => d.format(date_fmt).to_string(),
+                3 => amount.clone(),
+                4 => bal.0.clone(),
+                _ => junk_col.clone(),
+            })
+            .collect();
+        let written: Vec<String> = cells.iter().map(|c| rfc_field(r, c, delim)).collect();
+        if written[0].starts_with('#') {
+            st.count("csv_record_line_starts_with:#");
+        }
+        t.push_str(&written.join(&ds));
+        t.push_str(if r.chance(1, 8) { "\r\n" } else { "\n" });
+        intended.push(Intent {
+            amount: Some((a.0 != liability, a.1, a.2)),
+            balance: if cols.contains(&4) { bal.1 } else { None },
+            date: Some((d.year(), d.month(), d.day())),
+            payee: Some(one_line(&payee)),
+            ..Default::default()
+        });
+    }
+    if new_to_old {
+        intended.reverse();
+    }
+    Run { importer: "csv".into(), path: "in.csv".into(), input: t, yaml: y, records: n, intended, junk: vec![], must_import: true }
 }
 
 // ---------- Viseca ----------
@@ -438,21 +656,26 @@ fn gen_viseca(r: &mut Rng, st: &mut Stats) -> Run {
             payee = "x".into();
         }
         st.count(&format!("text:payee:{}", ptag));
-        let d = 1 + r.below(27);
+        // dd.mm.yy: chrono reads a two-digit year as 1970..2069
+        let date = caldate::gen_anchor(r, 1970, 2069, 1, 1);
+        let edate = date + chrono::Duration::days(if r.chance(1, 4) { 0 } else { 1 });
+        st.count(&format!("date:viseca:{}", caldate::class_of(date)));
+        st.count(&format!("date:viseca effective:{}", caldate::class_of(edate)));
+        let (d, e) = (date.format("%d.%m.%y").to_string(), edate.format("%d.%m.%y").to_string());
         let amount = format!("{}.{:02}", r.range(0, 2500), r.below(100));
         match r.below(3) {
             0 => {
-                writeln!(t, "{:02}.08.20 {:02}.08.20 {} {}{}", d, d + 1, payee, amount, if r.chance(1, 4) { " -" } else { "" }).unwrap();
+                writeln!(t, "{} {} {} {}{}", d, e, payee, amount, if r.chance(1, 4) { " -" } else { "" }).unwrap();
                 writeln!(t, "{}", r.pick(&["Telecommunication services", "Service stations; misc", ":tag:"])).unwrap();
             }
             1 => {
-                writeln!(t, "{:02}.08.20 {:02}.08.20 {} EUR {}.{:02} {}", d, d + 1, payee, r.range(1, 900), r.below(100), amount).unwrap();
+                writeln!(t, "{} {} {} EUR {}.{:02} {}", d, e, payee, r.range(1, 900), r.below(100), amount).unwrap();
                 writeln!(t, "Service stations").unwrap();
-                writeln!(t, "Exchange rate 1.092432 of {:02}.08.20 CHF {}.{:02}", d, r.range(1, 900), r.below(100)).unwrap();
+                writeln!(t, "Exchange rate 1.092432 of {} CHF {}.{:02}", d, r.range(1, 900), r.below(100)).unwrap();
                 writeln!(t, "Processing fee 1.75% CHF 0.{:02}", r.below(100)).unwrap();
             }
             _ => {
-                writeln!(t, "{:02}.08.20 {:02}.08.20 {} CHF {}.{:02} {}", d, d + 1, payee, r.range(1, 900), r.below(100), amount).unwrap();
+                writeln!(t, "{} {} {} CHF {}.{:02} {}", d, e, payee, r.range(1, 900), r.below(100), amount).unwrap();
                 writeln!(t, "Game, toy, and hobby shops").unwrap();
                 writeln!(t, "Processing fee 1.75% CHF 0.{:02}", r.below(100)).unwrap();
             }
@@ -465,7 +688,7 @@ fn gen_viseca(r: &mut Rng, st: &mut Stats) -> Run {
         writeln!(y, "format:\n{}", p.trim_end()).unwrap();
     }
     writeln!(y, "rewrite:\n  - matcher:\n      category: Telecommunication\n    account: Expenses:Telecom\n  - matcher:\n      payee: Okane\n    account: Assets:Wire\n    pending: true").unwrap();
-    Run { importer: "viseca".into(), path: "in.txt".into(), input: t, yaml: y, records: n, intended: vec![], junk: vec![] }
+    Run { importer: "viseca".into(), path: "in.txt".into(), input: t, yaml: y, records: n, intended: vec![], junk: vec![], must_import: false }
 }
 
 // ---------- observation ----------
@@ -609,13 +832,21 @@ pub fn emit(sh: &mut Shards, st: &mut Stats, run: &Run, source: &str, nontrivial
         ImportRun::Err(d, _) => {
             // not a transaction-producing run: nothing was printed, nothing to read back
             st.count(&format!("impl:import_error:{}", d.chars().take(40).collect::<String>()));
-            if !run.junk.is_empty() {
+            if !run.junk.is_empty() || run.must_import {
                 // a statement with a cell that is not a number of okane's grammar was refused: a case
                 // of its own (nothing printed, so nothing misread; the model of str_to_comma_decimal
-                // must refuse one of the cells, and the error must be the number error)
+                // must refuse one of the cells, and the error must be the number error).  A refused
+                // statement WITHOUT such a cell is a case as well: every generated CSV statement without one is a
+                // statement the importer is meant to read, so the classifier finds no cell that explains the
+                // refusal (ModelMismatch) - a record swallowed as the header, say
                 let code = if d.contains("failed to parse comma decimal") { 10 } else { 99 };
+                if run.junk.is_empty() {
+                    st.count("impl:refused_statement_without_junk_cell");
+                }
                 st.eval(&(&run.input, &run.yaml), nontrivial);
-                st.count(&format!("impl:refused_statement_with_junk_cell:kind{}", code));
+                if !run.junk.is_empty() {
+                    st.count(&format!("impl:refused_statement_with_junk_cell:kind{}", code));
+                }
                 let rep = json!({"property": "C15", "run": serde_json::to_value(run).unwrap(), "impl": {"import_error": d},
                     "reproduce": "write run.input to in.csv and run.yaml to cfg.yml; okane import --config cfg.yml in.csv"});
                 sh.push(format!("CRefused {} {}", coq::list(run.junk.iter().map(|c| coq::bytes_list(c.as_bytes()))), code), vec![rep]);
@@ -707,7 +938,18 @@ pub fn emit(sh: &mut Shards, st: &mut Stats, run: &Run, source: &str, nontrivial
         st.sample(rep.clone(), 5);
     }
     let num_term = |n: &Option<Num>| coq::opt(n.as_ref().map(|(neg, m, s)| format!("(mkd {} {} {})", coq::bool_(*neg), m, s)));
-    let intents = coq::list(run.intended.iter().map(|i| format!("(INT {} {} {} {} {})", num_term(&i.amount), num_term(&i.balance), num_term(&i.charge), num_term(&i.rate), num_term(&i.secondary))));
+    let intents = coq::list(run.intended.iter().map(|i| {
+        format!(
+            "(INT {} {} {} {} {} {} {})",
+            num_term(&i.amount),
+            num_term(&i.balance),
+            num_term(&i.charge),
+            num_term(&i.rate),
+            num_term(&i.secondary),
+            coq::opt(i.date.as_ref().map(imptree::date_term)),
+            coq::opt(i.payee.as_ref().map(|p| imptree::str_term(p)))
+        )
+    }));
     if !run.intended.is_empty() {
         st.count("runs_with_intended_values");
     }
@@ -770,7 +1012,7 @@ fn testdata_runs() -> Vec<Run> {
     };
     for (f, imp) in [("iso_camt.xml", "camt"), ("index_amount.csv", "csv"), ("label_credit_debit.csv", "csv"), ("csv_template.csv", "csv"), ("csv_multi_currency.csv", "csv"), ("viseca.txt", "viseca")] {
         if let Ok(input) = std::fs::read_to_string(dir.join(f)) {
-            let mut run = Run { importer: imp.into(), path: f.into(), input, yaml: yaml.clone(), records: 0, intended: vec![], junk: vec![] };
+            let mut run = Run { importer: imp.into(), path: f.into(), input, yaml: yaml.clone(), records: 0, intended: vec![], junk: vec![], must_import: false };
             // the number of records is read off the output itself for the repository's own files
             if let ImportRun::Ok(i) = imptree::run_import(run.input.as_bytes(), &run.yaml, &run.path, format_of(imp)) {
                 run.records = i.txns.len();
@@ -785,7 +1027,7 @@ pub fn run(o: &Opts) {
     let mut st = Stats::new();
     // smaller files in the thorough tier: coqc memory grows with the size of the case literal
     let mut sh = Shards::new(&o.out, if o.thorough { o.shards * 6 } else { o.shards }, HEADER);
-    st.rule = "statement files for the three importers (Camt053 XML with payee captured from AddtlTxInf/AddtlNtryInf, code from AcctSvcrRef, currency attribute, charges, foreign amounts with rates; CSV in three layouts: amount/balance/note/category/commodity/charge columns, credit/debit with secondary amount and rate, template payee; Viseca text) whose text fields are drawn from an adversarial pool (`;`, LF/CR/CRLF, injected transaction text, leading `(` `*` `!`, double space, tab, `:tag:`, `key: value`, non-ASCII, outer white space incl. U+3000/U+00A0, 2 kB fields, empty) with varied amounts (grouping commas, scales 0-5; CSV amount / credit / debit / balance / charge / secondary-amount cells bare, commodity-suffixed or prefixed with `$` / a currency code and the minus sign before or after the prefix: -$1.46, $-1,950.25, -USD 5, USD -5; the generator's own figure for each cell - also the rate and the secondary amount of a converted record - is checked against the transaction read back; one CSV statement in five has one amount / credit / debit / balance / charge / secondary-amount / rate cell in a notation okane's number grammar does not know or with trailing junk (6'540.35, 1 234.56, 12.50-, (12.50), +12.50, 1.234,56, 12,50, 1,23,456.78, 12..5, 12.50*, 5 USD EUR, --5, 1.5e0, 12.5x): refused, or read back as that very figure) and configured precisions 0-30; import + to_double_entry, printed as ImportCmd does, re-read with parse_ledger; non-trivial = some text field holds a character outside [A-Za-z0-9 ]; distinct by input + configuration".into();
+    st.rule = "statement files for the three importers (Camt053 XML with payee captured from AddtlTxInf/AddtlNtryInf, code from AcctSvcrRef, currency attribute, charges, foreign amounts with rates; CSV in three date-first layouts: amount/balance/note/category/commodity/charge columns, credit/debit with secondary amount and rate, template payee - and, for a third of the CSV statements, a text-first layout: the FIRST column is the payee or the note, date / amount / balance / an ignored column follow in random order, fields by label or by index, first label possibly `#Payee` `# of record` `=Payee`, delimiter , ; tab or |, written by an RFC 4180 writer that quotes only what must be quoted, CRLF now and then, one file in ten behind a byte order mark; its payee and note cells begin with `#` `# ` `##` `\"` `\'` `;` `=` `+` `-` `@` space, tab, U+FEFF, `//` `%` `!` `*` `|` `,` `\\`, are such a mark alone, or are empty; Viseca text); every record is dated on purpose (harness/src/caldate.rs): a quarter in the days around New Year whose ISO week belongs to the neighbouring year, 1 January / 31 December, 29 February and the 28 February / 1 March of 1900 and 2100, month ends and starts, 1900-01-01 / 2100-12-31 / 1970-01-01 / 2038-01-19 / 2069-12-31, else uniform over 1900-2100 (1970-2069 where the year has two digits: Viseca, CSV `%d.%m.%y`), the records of one statement within a week that reaches or crosses the drawn day; CSV dates under %Y-%m-%d, %Y/%m/%d, %d.%m.%Y, %m/%d/%Y, %d.%m.%y, `%d %b %Y`; Camt053 dates as Dt or (1 in 8) DtTm with offsets up to +14:00 / -12:00; the generator's own date for each CSV record - and in the text-first layout its payee as one line - is checked against the transaction read back, and a statement without a junk cell that the importer refuses is a case (ModelMismatch); whose text fields are drawn from an adversarial pool (`;`, LF/CR/CRLF, injected transaction text, leading `(` `*` `!`, double space, tab, `:tag:`, `key: value`, non-ASCII, outer white space incl. U+3000/U+00A0, 2 kB fields, empty) with varied amounts (grouping commas, scales 0-5; CSV amount / credit / debit / balance / charge / secondary-amount cells bare, commodity-suffixed or prefixed with `$` / a currency code and the minus sign before or after the prefix: -$1.46, $-1,950.25, -USD 5, USD -5; the generator's own figure for each cell - also the rate and the secondary amount of a converted record - is checked against the transaction read back; one CSV statement in five has one amount / credit / debit / balance / charge / secondary-amount / rate cell in a notation okane's number grammar does not know or with trailing junk (6'540.35, 1 234.56, 12.50-, (12.50), +12.50, 1.234,56, 12,50, 1,23,456.78, 12..5, 12.50*, 5 USD EUR, --5, 1.5e0, 12.5x): refused, or read back as that very figure) and configured precisions 0-30; import + to_double_entry, printed as ImportCmd does, re-read with parse_ledger; non-trivial = some text field holds a character outside [A-Za-z0-9 ]; distinct by input + configuration".into();
     st.assumptions.push("account names and the operator (charge payee) come from the configuration and are well-formed account names / plain text; only statement-file text is adversarial".into());
     st.assumptions.push("amount fields of the Camt053 and Viseca statement files are valid numbers; CSV cells may be in a foreign notation or carry trailing junk, never a notation that okane's grammar reads as a different number (1,234 for 1.234)".into());
     let (corpus, replay) = corpus_runs(&o.corpus, &o.extra);
